@@ -519,6 +519,9 @@ def check(mod, prop, tier, seed, t0, workdir, args):
         by_sig = collections.OrderedDict()
         for v in unlisted:
             by_sig.setdefault(v[0], v)
+        if os.environ.get("VERIF_LIST_SIGS"):
+            for sig, (s_, c, o, r, src) in by_sig.items():
+                log(f"SIG {sig} :: {r[:300]}")
         for sig, (s, c, o, r, src) in list(by_sig.items())[:5]:
             c2 = shrink_case(mod, prop, c, sig, workdir)
             o2 = run_impl(prop, [c2], os.path.join(workdir, "final"))[0]
